@@ -66,10 +66,10 @@ def schedule(s0: int, s1: int, s2: int, s3: int, s4: int, s5: int, n: int, a0: i
     return ok, signed > 0, "steps=%r" % (steps,)
 
 
-RS = ["", "relay", "a&b=c"]
+RS = ["", "relay", "a&b=c", "https://sp.example.org/return?next=%2Fhome", "100%"]
 MUT = ["none", "change message", "change RelayState", "remove RelayState", "add RelayState", "SigAlg -> other supported", "SigAlg -> unsupported (md5)",
        "SigAlg -> garbage", "remove SigAlg", "swap message and RelayState", "Signature of another entity for the same query", "truncate Signature",
-       "response instead of request key"]
+       "response instead of request key", "RelayState replaced by its percent-decoded form"]
 
 
 def url_binding(ent: int, alg: int, rs: int, mut: int, vkey: int, response: bool):
@@ -126,6 +126,12 @@ def url_binding(ent: int, alg: int, rs: int, mut: int, vkey: int, response: bool
     elif mut == 12:
         other_typ = "SAMLRequest" if response else "SAMLResponse"
         q[other_typ] = q.pop(typ)
+    elif mut == 13:
+        from urllib.parse import unquote
+        if "RelayState" in q and unquote(q["RelayState"]) != q["RelayState"]:
+            q["RelayState"] = unquote(q["RelayState"])
+        else:
+            applicable = False
     if not applicable:
         return True, False, "mutation not applicable"
     res = False
@@ -141,7 +147,42 @@ def url_binding(ent: int, alg: int, rs: int, mut: int, vkey: int, response: bool
     return res == expect, True, "verified=%s expected=%s exc=%r" % (res, expect, exc)
 
 
+# ---- through Entity.apply_binding: two real entities in one process ------------------------------
+from harness import fixtures as F                      # noqa: E402
+from saml2_tophat import BINDING_HTTP_REDIRECT         # noqa: E402
+CLIENTS = [F.mk_client(), F.mk_client(F.sp_conf(entityid=F.SP2_ID, acs_post=F.ACS2_POST, acs_redirect=None))]
+for _i, _c in enumerate(CLIENTS):
+    _c.sec.sec_backend = ENT[_i]                        # distinct keys A and B (ideal scheme)
+
+
+def entities(first: int, a1: int, a2: int, rs: int, third: bool):
+    """Two entities in one process sign redirects through Entity.apply_binding one after the
+    other (optionally the first one again afterwards): every URL verifies under its sender's key
+    and under nobody else's."""
+    first, a1, a2, rs, third = [concrete(x) for x in (first, a1, a2, rs, third)]
+    order = [first, 1 - first] + ([first] if third else [])
+    algs = [ALGS[a1], ALGS[a2], ALGS[a1]]
+    ok = True
+    for n, e in enumerate(order):
+        info = CLIENTS[e].apply_binding(BINDING_HTTP_REDIRECT, MSG, "https://idp.example.com/sso", RS[rs], sign=True, sigalg=algs[n])
+        loc = dict(info["headers"])["Location"]
+        with untraced():
+            q = dict((k, v[0]) for k, v in parse_qs(urlsplit(loc).query, keep_blank_values=True).items())
+        for v in (0, 1):
+            res = False
+            try:
+                res = bool(verify_redirect_signature(dict(q), ENT[v], sigkey=KEYS[v]))
+            except Exception:
+                res = False
+            ok = ok and (res == (v == e))
+    return ok, True, "order=%r" % (order,)
+
+
 def _rs_for(m, e):
+    if m == 13:
+        return 3                    # needs a RelayState that contains a percent escape
+    if m == 0:
+        return 3 + (e % 2) if e else 1     # liveness also for RelayStates with '%'
     if m in (2, 3, 9):
         return 1 + (e % 2)          # these mutations need a RelayState to act on
     if m == 4:
@@ -164,13 +205,22 @@ CONDITIONS = [
                 "entities on the same or on different algorithms"),
     Cond(name="url_binding", fn="url_binding",
          params=[("ent", "int"), ("alg", "int"), ("rs", "int"), ("mut", "int"), ("vkey", "int"), ("response", "bool")],
-         pre=["0 <= ent < 3", "0 <= alg < 5", "0 <= rs < 3", "0 <= mut < %d" % len(MUT), "0 <= vkey < 3"],
+         pre=["0 <= ent < 3", "0 <= alg < 5", "0 <= rs < %d" % len(RS), "0 <= mut < %d" % len(MUT), "0 <= vkey < 3"],
          partitions={"quick": [{"mut": m, "alg": (m + e) % 5, "rs": _rs_for(m, e), "response": (m + e) % 2 == 0, "ent": e} for m in range(len(MUT)) for e in range(3)],
                      "thorough": [{"mut": m, "alg": a} for m in range(len(MUT)) for a in range(5)]},
          timeout={"quick": 600, "thorough": 1200}, path_timeout=60,
          functions=["pack.http_redirect_message (signed branch)", "sigver.verify_redirect_signature", "sigver.RSACrypto.get_signer", "sigver.RSASigner.sign/verify"],
-         bounds="3 signing entities x 5 RSA-SHA algorithms x RelayState {absent, plain, with '&' and '='} x 13 single mutations of the signed query x verification under each of the 3 keys x request/response"),
+         bounds="3 signing entities x 5 RSA-SHA algorithms x RelayState {absent, plain, with '&' and '=', with a percent escape, with a bare '%'} x 14 single mutations of the signed query x verification under each of the 3 keys x request/response"),
 ]
+
+CONDITIONS.append(
+    Cond(name="entities", fn="entities", params=[("first", "int"), ("a1", "int"), ("a2", "int"), ("rs", "int"), ("third", "bool")],
+         pre=["0 <= first <= 1", "0 <= a1 < 5", "0 <= a2 < 5", "0 <= rs < %d" % len(RS)],
+         partitions={"quick": [{"a1": a, "a2": a, "rs": a % len(RS)} for a in range(5)] + [{"a1": 2, "a2": 4, "rs": 1}],
+                     "thorough": [{"a1": a, "a2": b} for a in range(5) for b in range(5)]},
+         timeout={"quick": 600, "thorough": 1200}, path_timeout=120,
+         functions=["entity.Entity.apply_binding (HTTP-Redirect, sign=True)", "httpbase.HTTPBase.use_http_get", "pack.http_redirect_message", "sigver.verify_redirect_signature"],
+         bounds="two Saml2Client entities with distinct keys in one process signing one after the other (either order, optionally the first again), same or different algorithms"))
 
 ASSUMPTIONS = [
     "ideal signature scheme: cryptography.asymmetric.key_sign returns the (key, digest, message) triple, key_verify compares triples - the RSA mathematics are C code outside the claim",
